@@ -196,6 +196,9 @@ KINDS = {
     'fig': '\\begin{figure}x\\caption{c}{L}{I}\\end{figure}',
     'tab': '\\begin{table}\\caption{d{L}}{I}\\end{table}',
     'thm': '\\begin{zzthm}{L}t{I}\\end{zzthm}',
+    # labels nested in the first (optional) argument of the numbered object itself
+    'thmopt': '\\begin{zzthm}[T{L}]t{I}\\end{zzthm}',
+    'itemopt': '\\begin{enumerate}\\item x\\item[u{L}] y{I}\\end{enumerate}',
 }
 HAS_INSIDE = {k for k, v in KINDS.items() if '{I}' in v}
 
@@ -221,7 +224,7 @@ def numbers(objs):
         elif k == 'row2':
             c['equation'] += 2
             out.append(str(c['equation']))
-        elif k == 'item':
+        elif k in ('item', 'itemopt'):
             out.append('2')
         elif k == 'fig':
             c['figure'] += 1
@@ -229,7 +232,7 @@ def numbers(objs):
         elif k == 'tab':
             c['table'] += 1
             out.append(str(c['table']))
-        elif k == 'thm':
+        elif k in ('thm', 'thmopt'):
             c['thm'] += 1
             out.append(str(c['thm']))
     return out
@@ -288,7 +291,7 @@ def locate(doc, objs):
                 out.append([env] + rows[:1])
             else:
                 out.append(rows[1:2])
-        elif kind == 'item':
+        elif kind in ('item', 'itemopt'):
             env = take('enumerate')
             items = [c for c in env.childNodes if c.nodeName == 'item'] if env is not None else []
             out.append(items[1:2])
@@ -296,7 +299,7 @@ def locate(doc, objs):
             env = take('figure' if kind == 'fig' else 'table')
             caps = env.getElementsByTagName('caption') if env is not None else []
             out.append(list(caps[:1]))
-        elif kind == 'thm':
+        elif kind in ('thm', 'thmopt'):
             out.append([take('thmenv')])
     return out, set(id(n) for n in order)
 
